@@ -287,7 +287,10 @@ class Interp:
 
     def ev_Local(self, n):
         if n["id"] in self.env:
-            return self.env[n["id"]]
+            v = self.env[n["id"]]
+            if isinstance(v, PlaceRef):
+                return self.ev(self.place_of_ref(v, n))      # reading through a `&mut place` binding: the place's current value
+            return v
         raise Unsupported(n, "unbound local %s" % n["name"])
 
     def ev_Path(self, n):
@@ -332,7 +335,7 @@ class Interp:
         return [self.ev(x) for x in n["es"]]
 
     def place_of_ref(self, r, n):
-        if self.ev(peel(r.node)["i"]) != r.idx:
+        if r.idx is not None and self.ev(peel(r.node)["i"]) != r.idx:
             raise Unsupported(n, "the index of a borrowed element changed while the reference was alive")
         return r.node
 
@@ -800,6 +803,8 @@ class Interp:
                 tgt = peel_ref_mut(s["init"])
                 if tgt is not None and peel(tgt).get("k") == "Index" and s["pat"].get("k") == "Bind" and not (peel(tgt).get("ty") or "").startswith("["):
                     self.bind(s["pat"], PlaceRef(tgt, self.ev(peel(tgt)["i"])), s)
+                elif tgt is not None and peel(tgt).get("k") == "Field" and s["pat"].get("k") == "Bind" and place(peel(tgt)) is not None:
+                    self.bind(s["pat"], PlaceRef(tgt, None), s)          # `let dt = &mut self.dt;`
                 else:
                     self.bind(s["pat"], self.ev(s["init"]), s)
             else:
